@@ -280,7 +280,8 @@ async fn eval_config(
                     "rules_whose_removal_reproduces_the_implementation": alts,
                     "all_disagreements": wrong.iter().map(|i| format!("{} on {}", cells[*i].0, if cells[*i].1.is_space() { "Space" } else if cells[*i].1.key.is_empty() { "synthetic" } else { cells[*i].1.key.as_str() })).collect::<Vec<_>>(),
                 }),
-                alts: alts.clone(),
+                // the catch-all ("the delegator does not hold it") only when no specific rule explains
+                alts: if alts.len() > 1 { alts.iter().filter(|a| *a != "delegator-does-not-hold").cloned().collect() } else { alts.clone() },
             });
         }
 
